@@ -44,9 +44,9 @@ func b(p int) bool { return p != 0 }
 
 var tests = []testDef{
 	{Idx: 0, Key: "monobit", Params: []int{0}, MinBits: 100, TwoSided: true,
-		Bytes:   func(d []byte, _ int) vals { return v2(rn.MonoBitFrequencyTestBytes(d)) },
-		Bits:    func(e []bool, _ int) vals { return v2(rn.MonoBitFrequencyTest(e)) },
-		Runner:  rn.MonoBitFrequency},
+		Bytes:  func(d []byte, _ int) vals { return v2(rn.MonoBitFrequencyTestBytes(d)) },
+		Bits:   func(e []bool, _ int) vals { return v2(rn.MonoBitFrequencyTest(e)) },
+		Runner: rn.MonoBitFrequency},
 	{Idx: 1, Key: "block", Params: []int{-1, 10, 100, 1000, 10000, 128, 37}, Default: -1, MinBits: 100,
 		Bytes: func(d []byte, m int) vals {
 			if m < 0 {
